@@ -106,7 +106,7 @@ def gen_any(rnd, depth=0):
     if r < 0.42:
         return rnd.choice([0.5, 1.5, -2.25, 1e20])
     if r < 0.5:
-        return rnd.choice(['', 'a', 'abc', 'a,b', '10', 'ff', '2020-01-01', 'x y'])
+        return rnd.choice(['', 'a', 'abc', 'a,b', '10', 'ff', '2020-01-01', 'x y', '5" pipe', 'a\\"b', '\\', 'q"', "it's", '1.0', 'é"'])
     if r < 0.55:
         return None
     if r < 0.6:
@@ -126,10 +126,12 @@ def gen_typed(rnd, t, lib, name=''):
     if t == 'number':
         return rnd.choice([0, 1, 2, 3, 4, 5, -1, 10, 16, 2, 36, 100, 2020, 0.5, 2.5, 1000, 23, 25, 30, 12, 28, 59, 999, 1, 2, 3])
     if t == 'string':
-        return rnd.choice(['', 'a', 'abc', 'a,b,c', '10', 'ff', '2020-01-01', 'x y', 'a+', 'A', ' pad ', 'n,m\n1,2\n3,4', '{"a":[1,2]}'])
+        return rnd.choice(['', 'a', 'abc', 'a,b,c', '10', 'ff', '2020-01-01', 'x y', 'a+', 'A', ' pad ', 'n,m\n1,2\n3,4', '{"a":[1,2]}', '5" pipe', 'a\\"b', 'q"'])
     if t == 'array':
         if name.startswith('data'):
             return [{'a': rnd.choice([1, 2, 3]), 'b': rnd.choice([1, 5, 'x', None])} for _ in range(rnd.randint(0, 5))]
+        if rnd.random() < 0.25:
+            return [rnd.choice([True, False, 0, 1, 1, 0, 2, None]) for _ in range(rnd.randint(1, 5))]
         return [gen_any(rnd, 1) for _ in range(rnd.randint(0, 5))]
     if t == 'object':
         return {rnd.choice(['a', 'b', 'c']): gen_any(rnd, 1) for _ in range(rnd.randint(0, 3))}
@@ -257,7 +259,8 @@ def run_library(spec, acc, api):
                        ('arrayNewSize', [3, 7]), ('stringRepeat', ['ab', 3]), ('numberParseInt', ['ff', 16]), ('datetimeNew', [2020, 14, 35, 25, 61, 61, 1001]),
                        ('arraySlice', [[1, 2, 3, 4], 1, 3]), ('stringSlice', ['abcdef', 2, 4]), ('stringCharCodeAt', ['abc', 1]), ('jsonStringify', [{'a': [1]}, 2]),
                        ('arrayGet', [[5, 6, 7], 2]), ('arrayDelete', [[5, 6, 7], 0]), ('arrayIndexOf', [[1, 2, 1], 1, 1]), ('arrayLastIndexOf', [[1, 2, 1], 1, 1]),
-                       ('stringIndexOf', ['abcabc', 'c', 3]), ('stringLastIndexOf', ['abcabc', 'c', 3]), ('stringFromCharCode', [72, 105]), ('mathLog', [8, 2])]:
+                       ('stringIndexOf', ['abcabc', 'c', 3]), ('arrayIndexOf', [[True, 1, 0], 1]), ('arrayIndexOf', [[False, 0, 1], 0]), ('arrayLastIndexOf', [[1, True], 1]), ('arrayLastIndexOf', [[0, False], 0]),
+                       ('arrayIndexOf', [[[True], [1]], [1]]), ('mathMax', [True, 1, 0]), ('mathMin', [False, 0, 1]), ('arraySort', [[1, True, 0, False, 1]]), ('systemCompare', [1, True]), ('jsonStringify', [['5" pipe', 1, 'x']]), ('jsonStringify', [{'k"': 2, 'z': ['\\', 3]}]), ('stringNew', [['a"', 7, 'b']]), ('arrayJoin', [[['q"', 1, 'r']], ',']), ('stringLastIndexOf', ['abcabc', 'c', 3]), ('stringFromCharCode', [72, 105]), ('mathLog', [8, 2])]:
         one_case(name, args, acc, api)
     acc.sample({'fn': 'arraySet', 'args': [[1, 2, 3], 1, 9], 'spellings': ['index as int 1', 'index as float 1.0']}, limit=1)
 
